@@ -27,11 +27,15 @@ INDEX_CLASSES = ["0", "1", "mid", "n", "n+1", "n+7"]
 LISTS = ["echo", "empty"]
 MATRIX = [c for c in itertools.product(STATUSES, INDEX_CLASSES, LISTS, OPS, range(len(PROTOS)))
           if not (PROTOS[c[4]]["version"] == "v1" and c[3].startswith("bulk"))]
+#: thorough: every status -2..63 plus the INTEGER length boundaries
+STATUSES_T = sorted(set(list(range(-2, 64)) + [127, 128, 255, 256, 32767, 32768, 2**31 - 1, -(2**31)]) - {0})
+MATRIX_T = [c for c in itertools.product(STATUSES_T, INDEX_CLASSES, LISTS, OPS, range(len(PROTOS)))
+            if not (PROTOS[c[4]]["version"] == "v1" and c[3].startswith("bulk"))]
 RULE = ("The matrix error-status {1..18, 19, 42, 255, 2^31-1, -1} x error-index class {0, 1, middle, n, n+1, n+7} x response "
         "binding list {echo of the request, empty} x operation {get, multiget, getnext, multigetnext, set, multiset, bulkget, "
         "first/later request of walk, multiwalk, bulkwalk, table, bulktable} x {v1, v2c, v3 noAuthNoPriv/authNoPriv/authPriv} "
-        "(%d cases) is enumerated completely in the thorough tier; quick takes a seeded sample of 3000 cases that contains "
-        "every status and every index class. A scripted reference agent answers the targeted request with (status, index). "
+        "(%d cases) is enumerated completely in the quick tier; thorough enumerates the same matrix with every status -2..63 "
+        "and the INTEGER length boundaries 127/128/255/256/32767/32768/+-2^31. A scripted reference agent answers the targeted request with (status, index). "
         "Oracle: independent status->class table from RFC 3416, error_status, offending_oid. Non-trivial: the scripted "
         "response was served; distinct = distinct matrix cells." % len(MATRIX))
 ASSUMPTIONS = [
@@ -50,27 +54,16 @@ MIB = {BASE + (1, c, r): ("int", c * 10 + r) for c in (1, 2) for r in (1, 2, 3)}
 
 
 def total(tier: str) -> int:
-    return 3000 if tier == "quick" else len(MATRIX)
+    return len(MATRIX) if tier == "quick" else len(MATRIX_T)
 
 
 def exhaustive(tier: str) -> Optional[str]:
-    if tier == "thorough":
-        return "all %d cells of status x index class x list x operation x protocol" % len(MATRIX)
-    return None
+    return "all %d cells of status x index class x list x operation x protocol" % (
+        len(MATRIX) if tier == "quick" else len(MATRIX_T))
 
 
 def plan_for(tier: str, seed: int, i: int) -> dict:
-    if tier == "thorough":
-        cell = MATRIX[i]
-    else:
-        rng = rng_for(seed, ID, tier, i)
-        # every status and every index class is present: stride through them, rest seeded
-        st = STATUSES[i % len(STATUSES)]
-        ic = INDEX_CLASSES[(i // len(STATUSES)) % len(INDEX_CLASSES)]
-        while True:
-            cell = (st, ic, rng.choice(LISTS), rng.choice(OPS), rng.randrange(len(PROTOS)))
-            if not (PROTOS[cell[4]]["version"] == "v1" and cell[3].startswith("bulk")):
-                break
+    cell = MATRIX[i] if tier == "quick" else MATRIX_T[i]
     status, ic, lst, opname, pi = cell
     return {"prop": ID, "status": status, "index_class": ic, "list": lst, "opname": opname, "proto_i": pi}
 
